@@ -271,78 +271,89 @@ Definition include_with (files : bytes -> fentry) (room : bool)
          else RErr (mkerr E_IncRead file ln)
        end.
 
-(* parse_section(name, lines, filename, depth) with d = MAX_DEPTH - depth levels left.
-   One iteration of `loop` = one iteration of the Rust loop (one lines.next()). acc = values, reversed. *)
+(* One iteration of the loop of parse_section on the line `raw` (already taken from the iterator; ln = current_line()).
+   ps = parse_section one level deeper (fuel, name, file, lines, line); room = whether depth + 1 < MAX_DEPTH;
+   continue = the rest of the loop (remaining lines, current_line, values so far in reverse). *)
+Definition section_step (files : bytes -> fentry)
+  (ps : nat -> bytes -> bytes -> list bytes -> N -> res (node * pstate)) (room : bool)
+  (continue : list bytes -> N -> list node -> res (node * pstate))
+  (f : nat) (name file raw : bytes) (rest : list bytes) (ln : N) (acc : list node) : res (node * pstate) :=
+  let line := clean_up raw in
+  match strip_suffix_byte LBRACE line with
+  | Some sn0 =>
+    let sn := trim sn0 in
+    if starts_with kw_route_sp sn && negb (beq sn kw_route_brace) then
+      match ps f (trim (after_space sn)) file rest ln with
+      | ROk (NSec k cs, (rest', ln')) => continue rest' ln' (NRoute k cs :: acc)
+      | ROk (_, (rest', ln')) => continue rest' ln' acc
+      | RErr e => RErr e
+      | RCrash w => RCrash w
+      end
+    else if starts_with kw_host_sp sn && negb (beq sn kw_host_brace) then
+      match ps f (host_name_of (trim (after_space sn))) file rest ln with
+      | ROk (NSec k cs, (rest', ln')) => continue rest' ln' (NHost k cs :: acc)
+      | ROk (_, (rest', ln')) => continue rest' ln' acc
+      | RErr e => RErr e
+      | RCrash w => RCrash w
+      end
+    else
+      match ps f sn file rest ln with
+      | ROk (n, (rest', ln')) => continue rest' ln' (n :: acc)
+      | RErr e => RErr e
+      | RCrash w => RCrash w
+      end
+  | None =>
+    if beq line [RBRACE] then ROk (NSec name (rev acc), (rest, ln))
+    else match line with
+         | [] => continue rest ln acc
+         | _ =>
+           match split_once SP line with
+           | None => RErr (mkerr E_Syntax file ln)
+           | Some (a, b) =>
+             let key := trim a in
+             let value := trim b in
+             if negb (beq key kw_include) then
+               match type_value key value with
+               | Ok n => continue rest ln (n :: acc)
+               | Err c => RErr (mkerr c file ln)
+               | Crash w => RCrash w
+               end
+             else if is_quoted value then
+               match str_slice value 1 (length value - 1) with
+               | None => RCrash C_SliceValue
+               | Some path =>
+                 match include_with files room ps path file ln with
+                 | ROk nodes => continue rest ln (rev nodes ++ acc)
+                 | RErr e => RErr e
+                 | RCrash w => RCrash w
+                 end
+               end
+             else RErr (mkerr E_IncValue file ln)
+           end
+         end
+  end.
+
+(* The loop of parse_section: one iteration = one lines.next(). acc = values so far, reversed. *)
+Definition section_loop (files : bytes -> fentry)
+  (ps : nat -> bytes -> bytes -> list bytes -> N -> res (node * pstate)) (room : bool) (name file : bytes)
+  : nat -> list bytes -> N -> list node -> res (node * pstate) :=
+  fix loop (fuel : nat) (ls : list bytes) (ln : N) (acc : list node) {struct fuel} : res (node * pstate) :=
+    match fuel with
+    | O => RErr (mkerr E_Fuel file ln)
+    | S f =>
+      match ls with
+      | [] => RErr (mkerr E_Eof file (ln + 1))         (* next() = None still increments current_line *)
+      | raw :: rest => section_step files ps room (loop f) f name file raw rest (ln + 1) acc
+      end
+    end.
+
+(* parse_section(name, lines, filename, depth) with d = MAX_DEPTH - depth levels left. *)
 Fixpoint parse_section (files : bytes -> fentry) (d : nat) (fuel : nat) (name file : bytes) (ls : list bytes) (ln : N)
   {struct d} : res (node * pstate) :=
   match d with
   | O => RErr (mkerr E_Depth file ln)                 (* depth >= MAX_DEPTH on entry: the line that opened the section *)
   | S d' =>
-    (fix loop (fuel : nat) (ls : list bytes) (ln : N) (acc : list node) {struct fuel} : res (node * pstate) :=
-       match fuel with
-       | O => RErr (mkerr E_Fuel file ln)
-       | S f =>
-         match ls with
-         | [] => RErr (mkerr E_Eof file (ln + 1))         (* next() = None still increments current_line *)
-         | raw :: rest =>
-           let ln := ln + 1 in
-           let line := clean_up raw in
-           match strip_suffix_byte LBRACE line with
-           | Some sn0 =>
-             let sn := trim sn0 in
-             if starts_with kw_route_sp sn && negb (beq sn kw_route_brace) then
-               match parse_section files d' f (trim (after_space sn)) file rest ln with
-               | ROk (NSec k cs, (rest', ln')) => loop f rest' ln' (NRoute k cs :: acc)
-               | ROk (_, (rest', ln')) => loop f rest' ln' acc
-               | RErr e => RErr e
-               | RCrash w => RCrash w
-               end
-             else if starts_with kw_host_sp sn && negb (beq sn kw_host_brace) then
-               match parse_section files d' f (host_name_of (trim (after_space sn))) file rest ln with
-               | ROk (NSec k cs, (rest', ln')) => loop f rest' ln' (NHost k cs :: acc)
-               | ROk (_, (rest', ln')) => loop f rest' ln' acc
-               | RErr e => RErr e
-               | RCrash w => RCrash w
-               end
-             else
-               match parse_section files d' f sn file rest ln with
-               | ROk (n, (rest', ln')) => loop f rest' ln' (n :: acc)
-               | RErr e => RErr e
-               | RCrash w => RCrash w
-               end
-           | None =>
-             if beq line [RBRACE] then ROk (NSec name (rev acc), (rest, ln))
-             else match line with
-                  | [] => loop f rest ln acc
-                  | _ =>
-                    match split_once SP line with
-                    | None => RErr (mkerr E_Syntax file ln)
-                    | Some (a, b) =>
-                      let key := trim a in
-                      let value := trim b in
-                      if negb (beq key kw_include) then
-                        match type_value key value with
-                        | Ok n => loop f rest ln (n :: acc)
-                        | Err c => RErr (mkerr c file ln)
-                        | Crash w => RCrash w
-                        end
-                      else if is_quoted value then
-                        match str_slice value 1 (length value - 1) with
-                        | None => RCrash C_SliceValue
-                        | Some path =>
-                          match include_with files (match d' with O => false | S _ => true end)
-                                             (parse_section files d') path file ln with
-                          | ROk nodes => loop f rest ln (rev nodes ++ acc)
-                          | RErr e => RErr e
-                          | RCrash w => RCrash w
-                          end
-                        end
-                      else RErr (mkerr E_IncValue file ln)
-                    end
-                  end
-           end
-         end
-       end) fuel ls ln []
+    section_loop files (parse_section files d') (match d' with O => false | S _ => true end) name file fuel ls ln []
   end.
 
 (* the search for "server {" at the start of parse_conf *)
